@@ -2,9 +2,9 @@
    Directives: ExtrOcamlBasic only (bool, option, list, prod, unit, sumbool -> OCaml natives);
    N, Z, positive stay Coq datatypes. *)
 From Coq Require Extraction ExtrOcamlBasic.
-From Schwifty Require Import Lib.Base Lib.Regex Model.Clean Model.Data Model.Iban.
-From Schwifty Require Import Gen.Env Gen.IbanData Gen.IbanCfg.
-From Schwifty Require Import Spec.Iso13616.
+From Schwifty Require Import Lib.Base Lib.Regex Model.Clean Model.Data Model.Iban Model.Bic.
+From Schwifty Require Import Gen.Env Gen.IbanData Gen.IbanCfg Gen.BicCfg.
+From Schwifty Require Import Spec.Iso13616 Spec.Iso9362.
 
 Definition national_stub (cc bban : text) : outcome bool := Ok true.
 
@@ -25,9 +25,19 @@ Definition s_check_digits := iso_check_digits.
 Definition s_conforms (cc b : text) : bool :=
   match find_row the_table cc with Some r => conforms_row r b | None => false end.
 
+Definition x_bic_new := bic_new the_env the_bic_cfg iso3166.
+Definition x_bic_validate := bic_validate the_bic_cfg iso3166.
+Definition x_bic_is_valid := bic_is_valid the_bic_cfg iso3166.
+Definition x_bic_formatted := bic_formatted the_bic_cfg.
+Definition x_bic_parts (s : text) : list text :=
+  [bic_bank_code the_bic_cfg s; bic_country_code the_bic_cfg s; bic_location_code the_bic_cfg s; bic_branch_code the_bic_cfg s].
+Definition x_bic_pat (strict : bool) := if strict then bc_swift the_bic_cfg else bc_iso the_bic_cfg.
+Definition s_iso9362_ok := iso9362_ok iso3166.
+
 Extraction Language OCaml.
 Set Extraction KeepSingleton.
 Extraction "extract/model.ml"
   x_clean x_iban_new x_iban_validate x_iban_is_valid x_iban_from_bban x_iban_formatted
   x_pat_apply x_chars_pat x_chars_method x_format_method x_row_regex
-  s_iso_ok s_check_digits s_conforms.
+  s_iso_ok s_check_digits s_conforms
+  x_bic_new x_bic_validate x_bic_is_valid x_bic_formatted x_bic_parts x_bic_pat s_iso9362_ok.
